@@ -110,6 +110,7 @@ func runLimitsMode() {
 }
 
 func limitsCase(name string, root *rootSpec, o wopts, cfg *recgen.Cfg, p genParams, r *rng.R) {
+	histDesc := func() string { return "" }
 	fails := map[string]bool{}
 	fail := func(sig, f string, a ...any) {
 		if fails[sig] {
@@ -121,9 +122,10 @@ func limitsCase(name string, root *rootSpec, o wopts, cfg *recgen.Cfg, p genPara
 			propFail("C08 %s case=%s (details suppressed)", sig, name)
 			return
 		}
-		propFail("C08 %s case=%s root=%s opts=%s: %s", sig, name, root.name, o, fmt.Sprintf(f, a...))
+		propFail("C08 %s case=%s root=%s opts=%s: %s; history: %s", sig, name, root.name, o, fmt.Sprintf(f, a...), histDesc())
 	}
 	h, res := generate(r, root, o, cfg, p)
+	histDesc = func() string { return h.describe(60) }
 	stats["records"] += len(res.truths)
 	oc := checkRoundtrip(root, res)
 	for _, f := range oc.fails {
@@ -247,6 +249,20 @@ func limitsCase(name string, root *rootSpec, o wopts, cfg *recgen.Cfg, p genPara
 	if !optDict && o.dictSize != 0 {
 		epoch := map[string]bool{}
 		prev := map[string]string{}
+		// a field that still holds its initial value in the first record is not encoded at all (the
+		// reader starts from the same initial record): the initial values count as "previous"
+		if node, err := recgen.ParseDump(root.initDump, root.ty); err == nil {
+			var leaves []recgen.DictLeaf
+			recgen.DictLeaves(node, "", &leaves)
+			for _, l := range leaves {
+				prev[l.Path] = l.Val
+			}
+			var dstructs []recgen.DictStruct
+			recgen.DictStructs(node, "", &dstructs)
+			for _, ds := range dstructs {
+				prev["\x01"+ds.Path] = ds.Repr
+			}
+		}
 		bytesLB := 0
 		rec := 0
 		for fi, f := range fB {
